@@ -17,6 +17,8 @@ import Compress.Facts.Sites
 import Compress.Proofs.Window
 import Compress.Prefix.BitReader
 import Compress.Proofs.FlateReset
+import Compress.Proofs.BzWApiLatch
+import Compress.Proofs.MetaWApi
 
 namespace Compress.Props.C14
 open Compress Compress.Window
@@ -73,5 +75,21 @@ example : (Compress.Flate.Impl.reset
       dict := { size := 32768, hist := Array.replicate 32768 0xAA, cap := 32768, wrPos := 5, full := true } }
     []).dict.hist.getD 7 0 = 0xAA := by
   simp [Compress.Flate.Impl.reset, Compress.Window.Dict.initOver, Compress.Flate.Impl.maxHistSize]
+/-- bzip2.Writer.Reset (API-level model): whatever the history, the state after Reset is the state of
+    a fresh writer of that level on the new sink - error, `done`, header flag, checksums, RLE1 stage,
+    bit writer, counters all start over. -/
+theorem C14_bzip2_writer_reset (s : Bzip2.BzW) (sk : XFlate.Sink) :
+    s.reset sk = ({ level := s.level, rle := { cap := 0 } } : Bzip2.BzW).reset sk :=
+  Compress.Proofs.BzWApi.reset_fresh s sk
+
+/-- ... in particular equal to what NewWriter returns for the same level and sink. -/
+theorem C14_bzip2_writer_reset_new (lvl : Int) (sk : XFlate.Sink) (s0 s : Bzip2.BzW)
+    (h : Bzip2.newBzW lvl sk = some s0) (hl : s.level = s0.level) : s.reset sk = s0 :=
+  Compress.Proofs.BzWApi.newBzW_eq_reset lvl sk s0 h s hl
+
+/-- meta.Writer.Reset (followed by setting FinalMode): equal to a new writer. -/
+theorem C14_meta_writer_reset (s : Meta.MW) (sk : XFlate.Sink) (f : Meta.FinalMode) :
+    (s.reset sk).setFinal f = (({} : Meta.MW).reset sk).setFinal f :=
+  Compress.Proofs.MetaWApi.reset_fresh s sk f
 
 end Compress.Props.C14
